@@ -336,6 +336,12 @@ structure Wrapper where
   propagatesErr : Bool
   cbDerefsResult : Bool := false
   scope : Scope := .single
+  /-- a non-nil result of `opm.Wait(op, err)` is returned WITHOUT first receiving from a channel the
+      callback sends on (go/ast fact `waitErrReturns=`): `err = opm.Wait(op, err); if err != nil { return …, err }`
+      stands before every `<-ch`.  When gocbcore refuses the request at dispatch (ErrShutdown, ErrOverload,
+      no route for the vBucket) no callback will ever run and `Wait` hands back the dispatch error at once
+      (async_op.go l.24-26); a receive placed before that guard would block for ever (`stepRB`). -/
+  returnsOnWaitError : Bool := true
   deriving DecidableEq, Repr
 
 def wrappers : List Wrapper := [
@@ -414,7 +420,7 @@ def optBit : Option Bool → String
 
 /-- the line the go/ast fact pass of the harness prints for this row -/
 def Wrapper.factLine (w : Wrapper) : String :=
-  s!"buffered={optBit w.buffered} readsAfterWait={optBit w.readsAfterWait} propagatesErr={if w.propagatesErr then "1" else "0"} deadline={w.deadlineExpr} scope={w.scope.show}"
+  s!"buffered={optBit w.buffered} readsAfterWait={optBit w.readsAfterWait} propagatesErr={if w.propagatesErr then "1" else "0"} deadline={w.deadlineExpr} scope={w.scope.show} waitErrReturns={if w.returnsOnWaitError then "1" else "0"}"
 
 def lookupSite (site : String) : Option Wrapper := wrappers.find? (·.site == site)
 
@@ -570,5 +576,46 @@ def srun (s : SState) (acts : List MAction) : SState := acts.foldl sstepD s
 
 /-- `eg.Wait()` has returned -/
 def scallReturned (s : SState) : Bool := s.reqs.all fun r => r.final.isSome
+
+/-! ## rejected at dispatch
+
+`op, err := agent.X(opts, cb)` with `err != nil`: gocbcore refused the request before queueing it
+(ErrShutdown after the agent was closed, ErrOverload with a full queue, no route for the vBucket).
+No callback will ever run.  In the LTS above this is `Cfg.imm = some code`: the caller starts at
+`WPc.immediateErr code`, gocbcore's side at `SPc.never` (no `srvResolve` is enabled from there),
+`Wait` returns `.imm code` in ONE step (async_op.go l.24-26) and the wrapper returns `immErr code`
+in the next, never looking at its result channel – every wrapper of the table is written
+`err = opm.Wait(op, err); if err != nil { return …, err }; … <-ch` (`Wrapper.returnsOnWaitError`).
+
+The seeded shape (`stepRB`): a wrapper that receives from its result channel BEFORE it looks at
+`Wait`'s error –
+
+  waitErr := opm.Wait(op, err)
+  err = <-ch                          // blocks until the callback has sent
+  if err == nil { return data, nil }  // "an answer right at the deadline wins"
+  if waitErr != nil { return nil, waitErr }
+  return nil, err
+
+It is `step` except at the wrapper's last step. -/
+
+/-- the wrapper's last step in the seeded shape: whatever `Wait` returned, first `<-ch` -/
+def stepRB (s : State) (a : Action) : Option State :=
+  match a, s.wpc with
+  | .waiterStep _, .returned r =>
+    if s.crashed || s.final.isSome then none else
+    match s.resultBuf with
+    | none => none                                   -- `err = <-ch`: nothing there, blocks
+    | some o =>
+      some { s with resultBuf := none,
+                    final := some (match o, r with
+                      | .ok d, _ => .ok d
+                      | .err _, .ctx e => .ctxErr e
+                      | .err _, .imm c => .immErr c
+                      | .err c, .nil_ => .srvErr c) }
+  | _, _ => step s a
+
+def stepRBD (s : State) (a : Action) : State := (stepRB s a).getD s
+
+def runRB (s : State) (acts : List Action) : State := acts.foldl stepRBD s
 
 end GoDcp.AsyncOp
